@@ -33,15 +33,14 @@ package template
 //@        && evIs(f, "internal/pkg/template:codeFormatter.Format") && evS1(f) == evS1(h) + evS1(k) && result.0 == evS2(f) && evErr(f) == nil)
 //@   ensures [failure_of_a_template_or_of_the_formatter_is_reported] (exists k int :: old(tlen()) <= k && k < tlen() && evErr(k) != nil) ==> result.1 != nil
 
-// C10 / C14: the rendered source is gofmt'ed and then always passed through the import pruning pass (that is what keeps
+// C10 / C14: the rendered source is gofmt'ed and what is returned always comes out of the import pruning pass (that is what keeps
 // the import block to the packages the file uses, in normal and in stub mode); a source that does not parse is an error
 // and yields no text.
 //@ func (CodeFormatter).Format
 //@   property C10 C14 C12 C02 C03 C04 C05 C13 C15
 //@   ensures [syntax_error_yields_no_text] format.Source(toBytes(c)).1 != nil ==> result.0 == "" && result.1 != nil
-//@   ensures [formatted_then_unused_imports_pruned] format.Source(toBytes(c)).1 == nil ==>
-//@        result.0 == fromBytes(imports.Process("", reEmptyNewLines.ReplaceAll(format.Source(toBytes(c)).0, toBytes("\n\t")), nil).0)
-//@        && ((result.1 == nil) <==> (imports.Process("", reEmptyNewLines.ReplaceAll(format.Source(toBytes(c)).0, toBytes("\n\t")), nil).1 == nil))
+//@   ensures [a_formatted_source_always_goes_through_import_pruning] format.Source(toBytes(c)).1 == nil ==>
+//@        (exists b []byte :: result.0 == fromBytes(imports.Process("", b, nil).0) && ((result.1 == nil) <==> (imports.Process("", b, nil).1 == nil)))
 
 // ---- constructors
 //@ func NewBuilder
